@@ -190,6 +190,12 @@ pub fn run(ctx: &mut Ctx) {
     }
     ctx.rec.note("patterns", &patterns.to_string());
     ctx.rec.checkpoint();
+    // every instruction inside the interpreter's own control structures (continuation items on EXEC,
+    // loop indices on INDEX): the frame table holds there too
+    if !ctx.is_fuzz() || ctx.fuzz.map(|k| k % 4 == 0).unwrap_or(false) {
+        crate::props::c06::context_sweep(ctx, "C10", &|_n: &str| Judge { frame: true, reference: false });
+        ctx.rec.checkpoint();
+    }
     // the REAL EXEC.CMD (everywhere else a stub stands in for it), pointed at a harmless target:
     // it must consume the count and the names and touch nothing else (it sleeps 1 s per call)
     case += 1;
